@@ -148,6 +148,12 @@ def stepCodec : List String → String
       else
         let w := elemWidth el
         if w = 0 then "bad-op" else showRes showNatList (decodeW w bs).res
+  | ["dsval", h] =>
+    -- DataSet content is not modelled (`PV.dataset` is opaque): the line only makes the request replayable;
+    -- what the implementation does with it is judged by direct oracles (no panic, no abort, allocation bound)
+    match unhex h with
+    | some _ => "ok"
+    | none => "bad-op"
   | ["kind", dt, variant, field] =>
     match dt.toNat?.bind DT.ofCode, parsePV "m" variant field with
     | some d, some pv => showRes (fun (p : DT × KV) => dtName p.1 ++ " " ++ showKV p.2) (kindOf validUtf8 d pv)
